@@ -132,5 +132,8 @@ C07Written(r) ==
          \* texts, lyrics and markers are never repeated
          /\ Cardinality({j \in 1..Len(ctl) : ctl[j][6] \in textual}) = Cardinality({x \in dem : x[2] \in textual})
          /\ VelocityOk(r, d)
-C07Ok(r) == (r.refused /\ ~MeterFits(Eff(r.doc, r.flags))) \/ C07Written(r)
+\* a tempo travels as 24 bits of microseconds per quarter note: 60,000,000 / bpm must be between 1 and 2^24 - 1, that is
+\* 4 <= bpm <= 60,000,000; outside, no event carries the written tempo (a slower one would come out as 0 = infinitely fast)
+BpmFits(d) == \A i \in 1..Len(d) : d[i].bpm = 0 \/ (d[i].bpm >= 4 /\ d[i].bpm <= 60000000)
+C07Ok(r) == LET d == Eff(r.doc, r.flags) IN (r.refused /\ (~MeterFits(d) \/ ~BpmFits(d))) \/ C07Written(r)
 =============================================================================
